@@ -5,7 +5,7 @@ import (
 	"strings"
 )
 
-var spacesRe = regexp.MustCompile(`\s+`)
+var spacesRe = regexp.MustCompile(`[ \t\n\r\f]+`)
 
 // IsIdentifierChar reports whether ch is valid in an identifier.
 // If first is true, digits are not allowed.
@@ -63,8 +63,8 @@ func NeedsHTMLEscape(s string) bool {
 func FormatAttr(val string) string {
 	var b strings.Builder
 
-	// Trim leading and trailing whitespace
-	val = strings.TrimSpace(val)
+	// Trim leading and trailing whitespace (HTML whitespace: a non-breaking space is content)
+	val = strings.Trim(val, " \t\n\r\f")
 
 	// Replace newlines with spaces
 	val = strings.ReplaceAll(val, "\n", " ")
